@@ -656,3 +656,28 @@ def r15(rr, repo):
             for nm, d, esc in _escaping_mutable_defaults(fn):
                 rr.ob('no function of the codec hands out a mutable default argument', False, m, esc, witness=f'{fn.name}({nm}={U(d)}) ... {U(esc)[:60]}', key=f'mutable-default-handed-out|{fn.name}|{nm}')
     rr.floor('functions of frame.py and mq.py looked at', k, 40, mod, init)
+
+
+@rule('C09.R16', "every topic's frame arrives with ITS format, size and encoding: the image header of a topic message is built from that topic's frame on every turn of the encoder's loop. A header "
+                 "remembered across topics (a per-call table keyed by the identity of the pixel buffer or of the cached JPEG) gives the second of two frames that SHARE their pixels under different "
+                 "format labels - Frame(bgr_frame, data, 'RGB') relabels without copying - the first one's label")
+def r16(rr, repo):
+    from ..model import ancestors as _anc
+    mod, fn = repo.find(f'{MQF}::MQ.frames2topicmsgs')
+    heads = [n for n in ast.walk(fn) if isinstance(n, ast.Assign) and isinstance(n.value, ast.Dict) and any(q.const_str(k) == 'img' for k in n.value.keys if k is not None)]
+    heads += [n for n in ast.walk(fn) if isinstance(n, ast.Dict) and any(q.const_str(k) == 'img' for k in n.keys if k is not None) and not any(isinstance(a, ast.Assign) and a.value is n for a in _anc(n))]
+    rr.floor("constructions of the image header {'img': [...]} in the encoder", len(heads), 1, mod, fn)
+    for h in heads:
+        loops = [a for a in _anc(h) if isinstance(a, ast.For)]
+        if not loops:
+            rr.unresolved('the image header is not built inside the loop over the topics', mod, h, key='header-per-topic')
+            continue
+        loop = loops[0]
+        outer_tables = {U(t) for n in walk_scope(fn) if isinstance(n, ast.Assign) and not any(a is loop for a in _anc(n)) and isinstance(n.value, (ast.Dict, ast.Call)) and
+                        (isinstance(n.value, ast.Dict) and not n.value.keys or (isinstance(n.value, ast.Call) and U(n.value.func) in ('dict', 'defaultdict', 'OrderedDict'))) for t in n.targets}
+        outer_tables -= {U(t) for n in walk_scope(fn) if isinstance(n, ast.Return) and n.value is not None for t in [n.value]}      # the result dict is not a memo
+        g = q.effective_guards(h if isinstance(h, ast.stmt) else q.enclosing_stmt(h), loop)
+        memo = [(t, p_) for t, p_ in g if any(re.search(rf'\b{re.escape(tb)}\b', t) for tb in outer_tables) or any(isinstance(w, ast.NamedExpr) and any(re.search(rf'\b{re.escape(tb)}\b', U(w.value)) for tb in outer_tables)
+                for w in ast.walk(ast.parse(t, mode='eval')) )]
+        rr.ob("the header is built for every topic's own frame (not only when a table kept across topics has no entry yet)", not memo, mod, h,
+              witness=(f'built only when {memo}' if memo else f'guards inside the loop: {g}')[:200], key='header-per-topic')
